@@ -37,7 +37,7 @@ def check(ctx):
     for n in walk_local(t2d.node):
         if isinstance(n, ast.Dict) and len(n.keys) >= 10:
             keys = {k.value for k in n.keys if isinstance(k, ast.Constant)}
-    ctx.floor('trs dict keys', len(keys), 12)
+    ctx.floor('trs dict keys', len(keys), 8)
     for a in ATTRS:
         if a != 'trs' and not a.endswith('_undef') or a == 'trs':
             pass
